@@ -198,7 +198,9 @@ func buildWorkflow(s *spec.Spec) (*sp.Workflow, map[string]*node) {
 			p := components.NewMapToTags(wf, ps.Name, func(ip *sp.FileIP) map[string]string {
 				m := map[string]string{}
 				for _, r := range ps.Tags {
-					if v := tagValue(r.Rule, ip.Path()); v != "" {
+					if r.Rule == "blank" {
+						m[r.Key] = "" // the tag is attached with an empty value (to be filled in later)
+					} else if v := tagValue(r.Rule, ip.Path()); v != "" {
 						m[r.Key] = v
 					}
 				}
